@@ -205,6 +205,12 @@ func c15Run(r *zsim.Run) {
 			k := ks[o.Intn(len(ks))]
 			v := dead[k]
 			delete(dead, k)
+			if o.Intn(2) == 0 {
+				// ... or the same key with another value: a publisher with a fixed id that came back on another address
+				nextKey++
+				v = fmt.Sprintf("10.0.1.%d:80", nextKey)
+				r.Probe("key_registered_again_with_another_value")
+			}
 			etcd.Apply(false, k, v)
 			live[k] = v
 			lastKey[v] = k
